@@ -134,6 +134,17 @@ func foreignLayout(r *Run, real bool) {
 			features["unknown"] = true
 			r.Probe("unknown-type-packet")
 		}
+		if t.Bool(1, 6, "client-specific") {
+			// a client-specific packet of this set: the specification lets
+			// any client define types under its own 8-byte prefix; the
+			// rest of the type may well read like one of the standard ones
+			prefix := []string{"ACME 1.0", "PAR 2.1\x00", "par 2.0\x00", "PAR 2.0 ", "\x00\x00\x00\x00\x00\x00\x00\x00"}[t.Draw(5, "prefix")]
+			tail := []string{"Main\x00\x00\x00\x00", "RecvSlic", "FileDesc", "IFSC\x00\x00\x00\x00", "Creator\x00", "Notes\x00\x00\x00"}[t.Draw(6, "tail")]
+			body := expandContent(ckRandom, t.Draw64(0, "cs-seed"), 4*(1+t.Draw(40, "cs-words")), 4)
+			pkts = append(pkts, ref.MakePacket(set.SetID, ref.TypeOf(prefix+tail), body))
+			features["unknown"] = true
+			r.Probe("client-specific-packet-type")
+		}
 		return pkts
 	}
 	shuffle := func(pkts [][]byte, firstOwn bool) []byte {
